@@ -151,6 +151,9 @@ type Sim struct {
 
 	// Hooks for property specific oracles.
 	OnRevoke func(side int, height uint64, msg *lnwire.RevokeAndAck, retransmit bool)
+	// OnBeforeRevoke is called right before side revokes its commitment
+	// at height (the commitment is still the current one on disk).
+	OnBeforeRevoke func(side int, height uint64)
 	// OnRevoked is called just before side receives the peer's
 	// revocation: revokedTx is the peer's commitment being revoked.
 	OnRevoked func(side int, height uint64, revokedTx *wire.MsgTx)
